@@ -886,8 +886,18 @@ def current_route_path(request, *elements, **kw):
     return request.current_route_path(*elements, **kw)
 
 
-@lru_cache(1000)
 def _join_elements(elements):
+    # the cache is keyed on the elements as text: values that compare equal
+    # but print differently (True, 1 and 1.0) must not share an entry
+    return _join_text_elements(
+        tuple(
+            [s if s.__class__ in (str, bytes) else str(s) for s in elements]
+        )
+    )
+
+
+@lru_cache(1000)
+def _join_text_elements(elements):
     return '/'.join(
         [quote_path_segment(s, safe=PATH_SEGMENT_SAFE) for s in elements]
     )
